@@ -70,6 +70,9 @@ STUB_TEMPLATE(C18_stub_pub_template)
 #ifndef PLENS
 #define PLENS {3, 2, 4, 3}          /* payload length per record: 0 or >= 2 */
 #endif
+#ifndef TAGS
+#define TAGS {-1, -1, -1, -1}       /* low tag byte per TLV16 record: -1 symbolic, else that concrete value */
+#endif
 #ifndef TRAIL
 #define TRAIL 0                     /* bytes after the last record */
 #endif
@@ -79,7 +82,7 @@ STUB_TEMPLATE(C18_stub_pub_template)
 #define MAXREC 4
 #define MAXBUF 64
 
-static const int form[MAXREC] = FORMS, nfl[MAXREC] = NFLAGS, ffl[MAXREC] = FFLAGS, plen[MAXREC] = PLENS;
+static const int form[MAXREC] = FORMS, nfl[MAXREC] = NFLAGS, ffl[MAXREC] = FFLAGS, plen[MAXREC] = PLENS, ctag[MAXREC] = TAGS;
 
 void harness(void) {
 	VERIF_ctx_init(); VERIF_pki_init();
@@ -92,7 +95,7 @@ void harness(void) {
 	for (unsigned i = 0; i < NREC; i++) {
 		off[i] = n - 8;
 		if (form[i] == 16) {
-			u8 lo = ND(u8, tag_low);
+			u8 lo = (ctag[i] >= 0) ? (u8)ctag[i] : ND(u8, tag_low);
 			buf[n++] = (u8)(0x80 | (nfl[i] ? 0x40 : 0) | (ffl[i] ? 0x20 : 0) | 0x07);
 			buf[n++] = lo; buf[n++] = 0; buf[n++] = (u8)plen[i];
 			tag[i] = 0x0700u | lo;
